@@ -229,6 +229,23 @@ theorem C02_history_write (h : HS) (ops : List Op) (h' : HS)
   obtain ⟨e, he, hv⟩ := C02_write_meaning h' hr
   exact ⟨e, he, fun ρ => by rw [hv ρ, hsame ρ, C02_history]⟩
 
+/-! ## the constants of the source (generated: `Gen/Geometry.lean`, `Gen/Constants.lean`) -/
+
+/-- **C02_new_nodes_ready.** The texts the code gives to new nodes satisfy what `ready` asks of paddings: the operator
+    text of a new intersection is a non-empty run of separators, of a new union separators around one ":", of a new
+    complement separators and then "#"; new parentheses are exactly "(" and ")"; and the symbols of
+    `geometry_operators.Operator` are the characters the Spec reads as `:` and `#`. Editing any of these constants
+    in the source regenerates `Gen/Geometry.lean` and re-opens this proof. -/
+theorem C02_new_nodes_ready :
+    (isSep false (textOfCodes Gen.newOprInterCodes) = true ∧ cmtAfter false (textOfCodes Gen.newOprInterCodes) = false ∧
+      (textOfCodes Gen.newOprInterCodes).isEmpty = false) ∧
+    unionOpr (textOfCodes Gen.newOprUnionCodes) = true ∧
+    complOpr (textOfCodes Gen.newOprComplCodes) = true ∧
+    (textOfCodes Gen.newParenOpenCodes = [.lp] ∧ textOfCodes Gen.newParenCloseCodes = [.rp]) ∧
+    (textOfCodes Gen.operatorUnionCodes = [.colon] ∧ textOfCodes Gen.operatorComplementCodes = [.hash]) ∧
+    0 < Gen.blankSpaceContinue := by
+  decide
+
 /-! ## non-vacuity -/
 
 /-- `(-1 | -2) & +3` built from scratch with the Python operators -/
